@@ -19,6 +19,7 @@ BITS, OPS = 'crysp/bits.py', 'crysp/utils/operators.py'
 
 
 def run(ctx):
+    integrity(ctx, ['crysp/bits.py', 'crysp/utils/operators.py'])
     ctx.rule('C08-R1 binary operator template')
     for name, expr in (('__and__', '( self.ival & obj.ival )'), ('__or__', '( self.ival | obj.ival )'), ('__xor__', '( self.ival ^ obj.ival )'),
                        ('__add__', '( self.ival + obj.ival ) & res.mask'), ('__sub__', '( self.ival - obj.ival ) & res.mask')):
